@@ -132,6 +132,8 @@ def create_random_binary_mask(features):
 
 
 def searchsorted(bin_locations, inputs, eps=1e-6):
+    # Work on a copy: the caller's knots must not be modified.
+    bin_locations = bin_locations.clone()
     bin_locations[..., -1] += eps
     return torch.sum(inputs[..., None] >= bin_locations, dim=-1) - 1
 
